@@ -5,7 +5,9 @@ import (
 	"go/ast"
 	"go/parser"
 	"go/token"
+	"os"
 	"path"
+	"path/filepath"
 	"regexp"
 	"sort"
 	"strings"
@@ -574,6 +576,47 @@ func c01Layout(s *vh.Session, tree *gen.Tree, dir string) (string, string) {
 	}
 	if build.Exit != 0 {
 		return "goverter reported success but the tree does not compile:\n" + vh.FirstLines(strings.ReplaceAll(build.Stdout+build.Stderr, dir, "@ROOT"), 10), ""
+	}
+	// a later successful run over these outputs with the last converter removed: what it emits
+	// (now shorter files) must compile as well
+	if len(tree.Convs) > 1 && len(tree.Existing) == 0 {
+		less := cloneTree(tree)
+		less.Convs = less.Convs[:len(less.Convs)-1]
+		declaring := map[string]bool{}
+		for _, cv := range tree.Convs {
+			declaring[cv.File] = true
+		}
+		for f := range less.Files {
+			if declaring[f] {
+				delete(less.Files, f)
+				_ = os.Remove(filepath.Join(dir, f))
+			}
+		}
+		less.Rerender()
+		if err := writeLayout(dir, less); err != nil {
+			return "", "INFRA: " + err.Error()
+		}
+		// outputs that no converter selects any more are the user's to delete
+		want2, _ := c15Expect(less, dir)
+		for f := range generatedFiles(dir) {
+			if _, ok := want2[filepath.ToSlash(f)]; !ok {
+				_ = os.Remove(filepath.Join(dir, f))
+			}
+		}
+		run2 := s.RunCLI(dir, append([]string{"gen"}, less.CLIPatterns()...)...)
+		if run2.TimedOut {
+			return "", "INFRA: CLI timed out"
+		}
+		if run2.Exit != 0 {
+			return "", "discard: regeneration failed: " + shortErr(run2.Stderr)
+		}
+		build2 := vh.RunCmd(dir, vh.GoEnv(), 10*time.Minute, "go", "build", "./...")
+		if build2.TimedOut || build2.Err != nil {
+			return "", "INFRA: go build did not run"
+		}
+		if build2.Exit != 0 {
+			return "goverter reported success on regeneration (one converter less) but the tree does not compile:\n" + vh.FirstLines(strings.ReplaceAll(build2.Stdout+build2.Stderr, dir, "@ROOT"), 10), ""
+		}
 	}
 	return "", ""
 }
